@@ -126,6 +126,8 @@ def run(tier, replay=None):
                 growth.setdefault(cls, []).append((run0["first"]["n"], max([s["n"] for s in run0["sweeps"]] or [0])))
             else:
                 evs.append({"ev": "obs", "id": e["id"], "class": cls})
+        elif e["ev"] == "skipped":
+            evs.append({"ev": "skipped", "id": e["id"], "class": cls})
         else:
             evs.append({"ev": e["ev"], "id": e["id"], "class": cls, "loc": e.get("loc", ""), "msg": e.get("msg", "")[:80]})
     # the rva binary: every output mode on a few inputs (+ include graphs on real files)
